@@ -33,6 +33,25 @@ def proportional(triple, spec):
     return True, None
 
 
+POINT_TY = 'bls12_381::ec::g2::G2'
+
+
+def is_step_function(fx, from_affine, res):
+    """A function nested in from_affine whose first parameter is the running projective point (by reference or value)"""
+    if not (res.startswith(from_affine + '::') and fx.body(res) is not None and '{closure' not in res):
+        return False
+    b = fx.body(res)
+    if b.arg_count < 1:
+        return False
+    ty = b.local_ty(1).replace('&mut ', '').replace('&', '').strip()
+    return ty == POINT_TY
+
+
+def returns_point_too(fx, res):
+    rty = fx.body(res).local_ty(0).replace(' ', '')
+    return rty.startswith('(' + POINT_TY + ',')
+
+
 def survey_step_calls(fx, from_affine):
     """Interpret from_affine with Q = (qx, qy) as atoms and the step functions as opaque updates of the running point:
     returns {step fn: set of argument shapes}, an argument being 'T' (the running point), 'Q' (the base) or a polynomial in
@@ -52,7 +71,7 @@ def survey_step_calls(fx, from_affine):
 
     def tr(I, fr, t, c, pth):
         res = c.get('res') or c.get('def') or ''
-        if res.startswith(from_affine + '::') and fx.body(res) is not None and '{closure' not in res:
+        if is_step_function(fx, from_affine, res):
             vals = []
             for a in t['args']:
                 v = fr.deref_operand(a)
@@ -66,8 +85,13 @@ def survey_step_calls(fx, from_affine):
                 calls[res].append((key, vals))
             counter[0] += 1
             k = counter[0]
-            fr.store_through(t['args'][0], Agg([A('X_%d' % k), A('Y_%d' % k), A('Z_%d' % k)]))
-            fr.storev(t['dest'], Agg([A('a_%d' % k), A('b_%d' % k), A('c_%d' % k)]))
+            newT = Agg([A('X_%d' % k), A('Y_%d' % k), A('Z_%d' % k)])
+            coef = Agg([A('a_%d' % k), A('b_%d' % k), A('c_%d' % k)])
+            if returns_point_too(fx, res):
+                fr.storev(t['dest'], Agg([newT, coef]))        # the pure form returns (2T / T + Q, coefficients)
+            else:
+                fr.store_through(t['args'][0], newT)
+                fr.storev(t['dest'], coef)
             return True
         if c.get('name') in ('into', 'from', 'into_projective') and len(t['args']) == 1:
             v = fr.deref_operand(t['args'][0])
@@ -80,7 +104,7 @@ def survey_step_calls(fx, from_affine):
         if G.transfer(I, fr, t, c, pth):
             return True
         return bitlin.transfer(I, fr, t, c, pth)
-    I = exp.Interp(fx, 'none', extra_transfer=tr, max_steps=400000, inline=lambda q_: INL.is_private_helper(fx, q_) and not q_.startswith(from_affine + '::'))
+    I = exp.Interp(fx, 'none', extra_transfer=tr, max_steps=400000, inline=lambda q_: INL.is_private_helper(fx, q_) and not is_step_function(fx, from_affine, q_))
     I.run(from_affine, [Agg([qx, qy, Int(0, 1)])])
     return I, calls
 
@@ -128,6 +152,8 @@ def step_rules(fx, rep, from_affine):
                 bad.append('%d paths (the step functions are called for finite points only and should not branch)' % len(res))
             for pth, ret, outs in res[:1]:
                 T = outs.get(1)
+                if returns_point_too(fx, p) and isinstance(ret, Agg) and len(ret.items) == 2:
+                    T, ret = ret.items           # the pure form: (new running point, coefficients)
                 if not (isinstance(T, Agg) and len(T.items) == 3 and all(isinstance(v, Poly) for v in T.items)):
                     bad.append('the running point becomes %r' % (T,))
                     continue
